@@ -49,6 +49,9 @@ const (
 	ListErrTooMany   // a Kubernetes Status error: 429 TooManyRequests
 	ListErrSrvTimeout // 500 ServerTimeout
 	ListErrTimeout   // 504 Timeout
+	ListErrNotFound  // 404 NotFound (the resource is not served)
+	ListErrForbidden // 403 Forbidden
+	ListErrGone      // 410 Gone
 )
 
 var ErrList = errors.New("fakeapi: injected list error")
@@ -420,6 +423,12 @@ func (s *Server) list(ctx context.Context, _ metav1.ListOptions) (runtime.Object
 		return nil, apierrors.NewTooManyRequests("fakeapi: overloaded", 1)
 	case ListErrSrvTimeout:
 		return nil, apierrors.NewServerTimeout(schema.GroupResource{Resource: "pods"}, "list", 1)
+	case ListErrNotFound:
+		return nil, apierrors.NewNotFound(schema.GroupResource{Resource: "pods"}, "")
+	case ListErrForbidden:
+		return nil, apierrors.NewForbidden(schema.GroupResource{Resource: "pods"}, "", errors.New("fakeapi: list not allowed"))
+	case ListErrGone:
+		return nil, apierrors.NewResourceExpired("fakeapi: too old resource version")
 	case ListErrTimeout:
 		return nil, apierrors.NewTimeoutError("fakeapi: timeout", 1)
 	case ListNonList:
